@@ -432,7 +432,12 @@ func (d *DataRow) GetValueByColumn(col *Column) interface{} {
 			log.Panicf("unsupported column %s (type %s) in table %s", col.Name, col.DataType.String(), d.dataStore.table.name.String())
 		}
 	case RefStore:
-		return d.refs[col.RefColTableName].GetValueByColumn(col.RefCol)
+		ref := d.refs[col.RefColTableName]
+		if ref == nil {
+			return col.GetEmptyValue()
+		}
+
+		return ref.GetValueByColumn(col.RefCol)
 	case VirtualStore:
 		return d.getVirtualRowValue(col)
 	}
@@ -474,6 +479,10 @@ func (d *DataRow) getVirtualRowValue(col *Column) interface{} {
 func (d *DataRow) GetCustomVarValue(col *Column, name string) string {
 	if col.StorageType == RefStore {
 		ref := d.refs[col.RefColTableName]
+		if ref == nil {
+			// optional reference, ex.: comments and downtimes of hosts have no service
+			return ""
+		}
 
 		return ref.GetCustomVarValue(col.RefCol, name)
 	}
